@@ -22,8 +22,10 @@ import (
 	"errors"
 	"fmt"
 	"reflect"
+	"runtime/debug"
 	"sync"
 
+	"github.com/cloudwego/eino/internal/safe"
 	"github.com/cloudwego/eino/schema"
 )
 
@@ -110,7 +112,17 @@ func (r *runner) run(ctx context.Context, isStream bool, input any, opts ...Opti
 	// Choose the appropriate wrapper function based on whether we're handling a stream or not.
 	haveOnStart := false
 	defer func() {
+		if panicInfo := recover(); panicInfo != nil {
+			// user code that runs on the run loop itself (branch conditions, state handlers) panicked: the graph
+			// ends for its handlers with OnError, like a panicking node body; the panic travels on to whoever
+			// recovers it (the executor of the enclosing graph)
+			if haveOnStart {
+				_, _ = onGraphError(ctx, safe.NewPanicErr(panicInfo, debug.Stack()))
+			}
+			panic(panicInfo)
+		}
 		if !haveOnStart {
+			haveOnStart = true
 			ctx, input = onGraphStart(ctx, input, isStream)
 		}
 		if err != nil {
@@ -241,8 +253,8 @@ func (r *runner) run(ctx context.Context, isStream bool, input any, opts ...Opti
 			ctx = r.runCtx(ctx)
 		}
 
-		ctx, input = onGraphStart(ctx, input, isStream)
 		haveOnStart = true
+		ctx, input = onGraphStart(ctx, input, isStream)
 
 		var reachedEnd bool
 		nextTasks, result, reachedEnd, err = r.calculateNextTasks(ctx, []*task{{
@@ -261,8 +273,8 @@ func (r *runner) run(ctx context.Context, isStream bool, input any, opts ...Opti
 			return nil, r.handleInterrupt(ctx, hit, nil, nextTasks, cm.channels, isStream, isSubGraph, checkPointID)
 		}
 	} else {
-		ctx, input = onGraphStart(ctx, input, isStream)
 		haveOnStart = true
+		ctx, input = onGraphStart(ctx, input, isStream)
 	}
 
 	// Main execution loop.
